@@ -25,6 +25,13 @@ EXTRA = [
     "select a, b from t1 using opts = {\"layers\": [1, 2], \"nested\": {\"k\": [3]}}",
     "create model m predict y using opts = {\"layers\": [1, 2]}, stops = [10, 20]",
     "create database d with engine = 'x', parameters = {\"ssl\": {\"verify\": true}, \"ports\": [1, 2]}",
+] + [tmpl % js for js in ('[1, [2, 3]]', '["dense", {"units": 8}]', '{"a": [1, {"b": [2]}]}', '[[1], [2]]', '[null, [1], {"k": []}]', '[1.5, "x", [true, [false]]]')
+       for tmpl in ('select a from t1 join mindsdb.m using opts = %s', 'create model m predict y using opts = %s', 'retrain m using opts = %s',
+                    'finetune m from db (select 1) using opts = %s', 'evaluate acc from (select 1) using opts = %s',
+                    "create database d with engine = 'x', parameters = {\"p\": %s}", 'create agent ag using model = \'m\', opts = %s',
+                    "create skill sk using type = 't', opts = %s", "create ml_engine e from h using opts = %s",
+                    "create knowledge base kb using model = m, opts = %s", "update agent ag set opts = %s",
+                    "create chatbot cb using database = 'd', agent = 'a', opts = %s")] + [
     "select (a), (b + 1) from t1 where (c) = 1",
     "select `order`, t.`select` from t as t",
     "create table t (a int, b text, c serial)",
